@@ -59,13 +59,13 @@ def main(run):
             for cpu in ([16] if not thorough else [1, 2, 16]):
                 racelog = run.sc.path("race-%s-%d" % (grp, cpu))
                 traces = run.execute("c01", "pkg/server", "^TestVerifFree$", behs, tag="c20-%s-%d" % (grp, cpu),
-                                     race=True, allow_fail=True, timeout=1500,
+                                     race=True, allow_fail=True, allow_short=True, timeout=1500,
                                      env={"GORACE": "log_path=%s halt_on_error=0" % racelog, "VERIF_RACELOG": racelog,
                                           "GOMAXPROCS": cpu})
                 invs = HEALTH + ([] if chaos else ["C01_ExportExact", "C01_AddPathExact", "C02_AdjInExact", "C02_LocRibExact"])
                 cfg = "SpeakerTraceC20_%s.cfg" % grp
                 v.write_cfg(run.sc, cfg, CFG % {"g": g, "invs": "\n".join("  " + x for x in invs)})
-                run.validate("SpeakerTrace", cfg, traces, behs, group=grp)
+                run.validate("SpeakerTrace", cfg, traces, behs[:len(traces)], group=grp)
                 # keep the race reports with the evidence of a failing run
                 reports = []
                 for f in sorted(os.listdir(run.sc.dir)):
@@ -87,4 +87,6 @@ RULE = ("schedules = SpeakerGen.tla walks (sessions, routes, policies, soft rese
         "for the non-chaos runs the final settled state by C01/C02. non-trivial = runs whose schedule has >= 3 concurrent actors")
 ASSUMPTIONS = ["data races are decided by the Go race detector, not by TLA+; Concurrency.tla contributes the lock-protocol model "
                "(deadlock freedom, lock order) at design level only",
-               "a pure mutex deadlock would show as a test timeout (exit 2), not as a verdict"]
+               "a lock deadlock stops the bubble without a panic; it is judged by a wall-clock watchdog from a goroutine dump "
+               "(idle process, >= 2 speaker goroutines waiting >= 1 minute for sync locks at >= 2 call sites, no speaker goroutine "
+               "in a time/IO dependent wait); a hang that does not meet these conditions ends as a test timeout (exit 2), not as a verdict"]
